@@ -186,6 +186,9 @@ func (g *gen) acts(old []int) string {
 	return "[" + strings.Join(toks, ",") + "]"
 }
 
+// newRoots: the next root list of a v2 contract. Besides appends and trims: swaps, trim + re-append in
+// another order, duplicates and appends of roots that are already somewhere in the list, so that the order of
+// the list is unrelated to the order in which the sectors were first stored.
 func (g *gen) newRoots(old []int) []int {
 	r := g.r
 	cur := append([]int(nil), old...)
@@ -193,12 +196,26 @@ func (g *gen) newRoots(old []int) []int {
 	if len(stored) == 0 {
 		return cur
 	}
-	for i := 0; i < 1+r.Intn(3); i++ {
-		switch x := r.Intn(6); {
+	for i := 0; i < 1+r.Intn(4); i++ {
+		switch x := r.Intn(12); {
 		case x < 3:
 			cur = append(cur, stored[r.Intn(len(stored))])
 		case x < 4 && len(cur) > 0:
+			cur = append(cur, cur[r.Intn(len(cur))]) // a root the contract already holds
+		case x < 5 && len(cur) > 0:
 			cur = cur[:len(cur)-1]
+		case x < 7 && len(cur) > 1: // swap (RPCFreeSectors: swap with the last, then trim)
+			a, b := r.Intn(len(cur)), r.Intn(len(cur))
+			cur[a], cur[b] = cur[b], cur[a]
+		case x < 8 && len(cur) > 1: // free one sector
+			a := r.Intn(len(cur))
+			cur[a] = cur[len(cur)-1]
+			cur = cur[:len(cur)-1]
+		case x < 9 && len(cur) > 1: // trim two, append them again the other way round
+			n := len(cur)
+			cur[n-1], cur[n-2] = cur[n-2], cur[n-1]
+		case x < 10 && len(cur) > 2: // rotate
+			cur = append(cur[1:], cur[0])
 		case len(cur) > 0:
 			cur[r.Intn(len(cur))] = stored[r.Intn(len(stored))]
 		}
@@ -500,11 +517,13 @@ func (g *gen) managerHistory(n int, withHooks, withDeviant bool) {
 			case x < 88:
 				line = fmt.Sprintf("name=UpdateChainState revert=0 apply=%d seed=%d", 1+r.Intn(2), r.Intn(1<<20))
 			case x < 94:
-				if withDeviant {
+				switch {
+				case withDeviant:
 					line = fmt.Sprintf("name=%s v=%d", vhlib.Pick(r, "S.UpdateSettings", "P.Update"), 1+r.Intn(9))
-				} else if r.Chance(1, 2) {
-					// without injected failures the settings managers are ordinary citizens of every history
-					line = fmt.Sprintf("name=%s v=%d ks=[] crash=[]", vhlib.Pick(r, "S.UpdateSettings", "P.Update"), 1+r.Intn(9))
+				case r.Chance(1, 2):
+					line = g.settingsPatch(r.Intn(nSettingsFields), false)
+				default:
+					line = g.pinnedPatch(r.Intn(nPinnedFields), false)
 				}
 			default:
 				g.w.doRestart(g.tr, parseLine(fmt.Sprintf("restart mode=%s ev=%s", vhlib.Pick(r, "clean", "clean", "abrupt"), g.eventScope())))
@@ -527,6 +546,102 @@ func (g *gen) fundedAccount(bal map[int]uint64) int {
 		return 1 + g.r.Intn(nAccounts)
 	}
 	return funded[g.r.Intn(len(funded))]
+}
+
+// settingsPatch: a single-field settings update whose value differs from what the manager serves now.
+func (g *gen) settingsPatch(f int, plain bool) string {
+	cur := g.w.main.mgr.sm.Settings()
+	val := uint64(1 + g.r.Intn(60))
+	for i := 0; i < 8; i++ {
+		next := cur
+		patchSettings(&next, f, val)
+		if settingsField(next, f) != settingsField(cur, f) {
+			break
+		}
+		val++
+	}
+	line := fmt.Sprintf("name=S.UpdateSettings f=%d val=%d", f, val)
+	if plain {
+		line += " ks=[] crash=[]"
+	}
+	return line
+}
+
+func (g *gen) pinnedPatch(f int, plain bool) string {
+	cur := g.w.main.mgr.pm.Pinned(contextBG())
+	if cur.Storage.Value == 0 {
+		cur = pinnedBase()
+	}
+	val := uint64(1 + g.r.Intn(60))
+	for i := 0; i < 8; i++ {
+		next := cur
+		patchPinned(&next, f, val)
+		if pinnedField(next, f) != pinnedField(cur, f) {
+			break
+		}
+		val++
+	}
+	line := fmt.Sprintf("name=P.Update f=%d val=%d", f, val)
+	if plain {
+		line += " ks=[] crash=[]"
+	}
+	return line
+}
+
+// fieldsHistory: after the first insert every settings column and every pinned-settings column is changed on
+// its own at least once (in random order), v2 and v1 root lists are reordered, with restarts in between.
+func (g *gen) fieldsHistory() {
+	r, b := g.r, g.w.b
+	g.tr.Line("reset profile=M hooks=0 fields=1", "")
+	g.setup("name=S.UpdateSettings v=3")
+	g.setup("name=P.Update f=1 val=4")
+	g.setup("name=AddVolume v=1 ro=0")
+	b.nextVol = 1
+	g.setup("name=GrowVolume v=1 n=24")
+	g.setup("name=SetAvailable v=1 av=1")
+	g.setup("name=StoreSectors from=1 to=12")
+	g.setup(g.addContractLine(true, true))
+	g.setup(g.addContractLine(false, true))
+	type patch struct {
+		pinned bool
+		f      int
+	}
+	var todo []patch
+	for f := 0; f < nSettingsFields; f++ {
+		todo = append(todo, patch{false, f})
+	}
+	for rep := 0; rep < 2; rep++ { // pinned flags: on and off again
+		for f := 0; f < nPinnedFields; f++ {
+			todo = append(todo, patch{true, f})
+		}
+	}
+	for i := len(todo) - 1; i > 0; i-- {
+		j := r.Intn(i + 1)
+		todo[i], todo[j] = todo[j], todo[i]
+	}
+	for i, pt := range todo {
+		if pt.pinned {
+			g.sweep(g.pinnedPatch(pt.f, true))
+		} else {
+			g.sweep(g.settingsPatch(pt.f, true))
+		}
+		if i%4 == 1 {
+			if cs := g.liveContracts(true, true); len(cs) > 0 {
+				c := cs[r.Intn(len(cs))]
+				g.sweep(fmt.Sprintf("name=M.ReviseV2Contract c=%d rev=%d new=%s u=%s ks=[] crash=[]", c.n, c.rev+1, listOf(g.newRoots(c.roots)), g.u8(5, true)))
+			}
+		}
+		if i%4 == 3 {
+			if cs := g.liveContracts(false, true); len(cs) > 0 {
+				c := cs[r.Intn(len(cs))]
+				g.sweep(fmt.Sprintf("name=M.Commit c=%d rev=%d ws=%d we=%d old=%s acts=%s u=%s ks=[] crash=[]", c.n, c.rev+1, c.ws, c.we, listOf(c.roots), g.acts(c.roots), g.u8(5, false)))
+			}
+		}
+		if r.Chance(1, 6) {
+			g.w.doRestart(g.tr, parseLine(fmt.Sprintf("restart mode=%s ev=test", vhlib.Pick(r, "clean", "clean", "abrupt"))))
+		}
+	}
+	g.w.doRestart(g.tr, parseLine("restart mode=clean ev=test"))
 }
 
 // eventScope picks the scope of the test event: one that a registered hook listens to, if there is any.
@@ -679,10 +794,10 @@ func TestEngine(t *testing.T) {
 	r := vhlib.NewRand(cfg.Seed)
 	only := cfg.Extra["only"] // restrict to one history kind (debugging)
 	for i := 0; i < cfg.N; i++ {
-		kinds := []string{"S", "M", "I", "Mh", "R", "S", "M", "V", "Md", "B"}
+		kinds := []string{"S", "M", "I", "Mh", "R", "S", "F", "V", "Md", "B"}
 		if cfg.Extra["c18"] == "1" {
 			// C18: histories with managers and restarts
-			kinds = []string{"M", "Mh", "V", "M", "Md", "M", "Mh", "V", "M", "S"}
+			kinds = []string{"M", "Mh", "V", "F", "Md", "I", "Mh", "F", "M", "F"}
 		}
 		kind := kinds[(int(cfg.Seed%10)+i)%10]
 		if only != "" {
@@ -691,7 +806,7 @@ func TestEngine(t *testing.T) {
 		func() {
 			profile := "S"
 			switch kind {
-			case "M", "Mh", "Md":
+			case "M", "Mh", "Md", "F":
 				profile = "M"
 			case "V":
 				profile = "V"
@@ -716,6 +831,8 @@ func TestEngine(t *testing.T) {
 				g.bigHistory()
 			case "I":
 				g.indexerHistory(4)
+			case "F":
+				g.fieldsHistory()
 			}
 		}()
 	}
